@@ -159,6 +159,10 @@ Definition seq_ops : list (string * handler) :=
         | Some d, Some o => let r := fold_left slstep o d in Some (VL [ofnat (length r); ofNs r]) | _, _ => None end | _ => None end);
     ("s.kmer_at"%string, fun a => match a with [VN k; VL l; VN pos] => match vlistN l with
         | Some d => Some (ofNs (kmer_at (N.to_nat k) d (N.to_nat pos))) | None => None end | _ => None end);
+    (* the Iterator contract of iter_kmers under skipping (nth / skip / step_by): the i-th item, or nothing past the end *)
+    ("s.iter_nth"%string, fun a => match a with [VN k; VL l; VN i] => match vlistN l with
+        | Some d => Some (if Nat.leb (N.to_nat (N.min i (N.of_nat (length d) + 1)) + N.to_nat k) (length d)
+                          then VL [ofNs (kmer_at (N.to_nat k) d (N.to_nat i))] else VL []) | None => None end | _ => None end);
     ("s.kmer_exts"%string, fun a => match a with [VN k; VL l; VL ls; VL rs] => match vlistN l, vlistN ls, vlistN rs with
         | Some d, Some L, Some R => Some (VL (spec_kmer_exts (N.to_nat k) d L R)) | _, _, _ => None end | _ => None end);
     ("s.ni"%string, fun a => match a with [VN k; VL l; VL calls] => match vlistN l, omap (v_ncall (N.of_nat (length l) + 8)) calls with
